@@ -91,6 +91,24 @@ CHECKS["C13"] = dict(
     ref="6 (C13)", technique="Coq proof (sorted-permutation uniqueness; parser factorisation lemmas) + decorated-variant evaluation, model correspondence and multi-seed subprocess runs",
     note="Assumes C01/C02/C12 of the scheme. The hash seed is a process-level configuration: proved for the model (set = arbitrary permutation), exercised on CPython by subprocess runs.")
 
+CHECKS["C01"] = dict(
+    text="Per scheme, a code-shaped Coq model of the comparison (parsing of the version text, shortcuts, loops) and a refinement theorem: on the shape every accepted version "
+         "has, the comparison the code computes equals a lexicographic order on an explicit key (padded token lists for deb, components/letter/suffix-chain/revision for "
+         "ebuild and alpine, a five-field key for legacy openssl, the string order for generic), which is a total preorder; all five laws of the property and the "
+         "order-independence of sorting are proved once for any total preorder. Schemes with a theorem: generic, legacy openssl, ebuild, alpine, deb (listed in the evidence). "
+         "For every version class, modelled or not, the laws are also evaluated on the implementation over triples of near-equal versions (every ordered triple of sliding windows "
+         "of the near-pair stream) and random triples, with the two excluded sub-domains filtered; modelled classes are additionally compared with their model (operators, key order, "
+         "theorem domain).",
+    ref="5, 6 (C01)", technique="Coq proof (refinement of the code-shaped comparator to a key order; TPO transfer) for the modelled schemes + law evaluation on triples for all classes",
+    note="PARTIAL in breadth: rpm, alpm, semver family, pypi, gem, nuget, conan, maven, openssl(3.x) have no Coq model yet and are covered by direct law evaluation only. Known finding: maven order is intransitive outside the documented grammar (known_findings.json).")
+CHECKS["C02"] = dict(
+    text="Theorems: any six operators derived from one comparison satisfy the agreement laws; the six vers comparators, through the comparator table transcribed from /repo, accept "
+         "exactly what the operators say; and per modelled scheme (generic, legacy openssl, ebuild/alpine, deb) the code-shaped model of the six Python operators (which methods the class "
+         "really defines and how attrs/tuple comparison dispatch them) equals the operators of the scheme's key order. For every version class the laws and the single-comparator "
+         "constraints are evaluated on the implementation over neighbour pairs, random pairs and pairs two edits apart whose first edit preserves equality.",
+    ref="6 (C02)", technique="Coq proof (operator models vs the order they refine to) for the modelled schemes + exhaustive-by-stream law evaluation on pairs for all classes",
+    note="PARTIAL in breadth as for C01. The model follows the code after the fix: commits that added the missing <=/>= and made debian equality numeric.")
+
 PENDING = {}
 
 
